@@ -376,8 +376,8 @@ func genScenario(i int, seed int64) scenario {
 	rng := rand.New(rand.NewSource(seed))
 	sc := scenario{Case: i, Seed: seed}
 	// spread patterns and families evenly over the case index, the rest is seeded
-	sc.Pattern = []string{"steady", "bursty", "stalled", "resumed", "alternating"}[i%5]
-	sc.Family = (i / 5) % 4
+	sc.Pattern = []string{"steady", "bursty", "stalled", "resumed", "alternating", "longstall"}[i%6]
+	sc.Family = (i / 6) % 4
 	switch sc.Family {
 	case 0:
 		sc.T = []time.Duration{30, 60, 100, 150, 250, 400}[rng.Intn(6)] * time.Millisecond
@@ -401,6 +401,9 @@ func genScenario(i int, seed int64) scenario {
 		sc.Phases = []phase{{"steady", T, 25}, {"burst", 0, 12}}
 	case "stalled":
 		sc.Phases = []phase{{"steady", T, 25}, {"stall", 0, 7}}
+	case "longstall":
+		// nothing is produced for far longer than any back-off needs to reach its cap
+		sc.Phases = []phase{{"steady", T, 12}, {"stall", 0, 45}}
 	case "resumed":
 		sc.Phases = []phase{{"steady", T, 15}, {"stall", 0, 5}, {"steady", T, 60}}
 	case "alternating":
@@ -773,6 +776,25 @@ func checkCadence(run *vkit.Run, sc scenario, rounds []roundRec, note string, wi
 			if last <= prev {
 				run.Violation("cadence: poll spacing did not grow while production was stalled"+note,
 					wit(map[string]any{"phase_index": p, "spacing_before_ns": prev, "last_stalled_spacing_ns": last}))
+			}
+			// "it backs off when none appear": while nothing is received the pure wait (end of a
+			// round's requests to the next poll) never shrinks
+			shrunk := -1
+			for j := sp.first + 2; j+1 <= sp.last; j++ {
+				w0 := rounds[j].PollTime - rounds[j-1].End
+				w1 := rounds[j+1].PollTime - rounds[j].End
+				run.Count("cadence_stall_wait_pairs_checked", 1)
+				if rounds[j+1].StoreNext != rounds[sp.first+1].StoreNext {
+					break // something arrived after all (lagging server): not a stall any more
+				}
+				if float64(w1) < 0.99*float64(w0) {
+					shrunk = j
+					break
+				}
+			}
+			if shrunk >= 0 {
+				run.Violation("cadence: wait before the next poll shrank during a stall although nothing was received"+note,
+					wit(map[string]any{"phase_index": p, "stalled_poll": shrunk - sp.first, "wait_before_ns": rounds[shrunk].PollTime - rounds[shrunk-1].End, "wait_after_ns": rounds[shrunk+1].PollTime - rounds[shrunk].End}))
 			}
 		}
 	}
